@@ -1153,3 +1153,7 @@ fn get_peers_in_range(peers: &[PeerId], address: &NetworkAddress, range: U256) -
         })
         .collect()
 }
+
+#[cfg(maidsafe_safe_network_verif)]
+#[path = "verif/cmd.rs"]
+pub mod verif;
